@@ -316,6 +316,50 @@ let smoother_query (toks : string list) (rhs : string) : string =
   | "PROP" :: _ -> "ok"
   | _ -> "?unknown-query"
 
+
+(* ---------------- C10 / C09b / C01 / C13 control flow ---------------- *)
+let bk_name = function Sol -> "sol" | Rhs -> "rhs" | Res -> "res" | Err -> "err"
+let bref_name ((l, k) : nat * bk) = Printf.sprintf "L%d.%s" (int_of_nat l) (bk_name k)
+let op_name = function
+  | OSmooth -> "smooth" | OExtSmooth -> "extsmooth" | OResid -> "resid" | ODirect -> "direct" | ORestrict -> "restrict"
+  | OProlong -> "prolong" | OExRestrict -> "exrestrict" | OExProlong -> "exprolong" | OInject -> "inject" | OFMG -> "fmg"
+  | OAssign0 -> "assign0" | OAdd -> "add" | OLinComb -> "lincomb" | OExtResid -> "extresid" | OCopy -> "copy"
+  | OExactErr -> "exacterr" | ONorm -> "norm" | OConverged -> "converged"
+let leveled = function OAssign0 | OAdd | OLinComb | ONorm | OConverged | OExactErr -> false | _ -> true
+let render_ev (e : ev) : string =
+  let op = op_name e.e_op in
+  let bufs = String.concat "," (List.map bref_name e.e_bufs) in
+  if leveled e.e_op then Printf.sprintf "%s@%d:%s" op (int_of_nat e.e_lvl) bufs else Printf.sprintf "%s:%s" op bufs
+let render_trace (l : ev list) : string = String.concat ";" (List.map render_ev l)
+let ckind_of = function 0 -> KV | 1 -> KW | _ -> KF
+
+(* spec trace of  initializeSolution ; solve loop  for one configuration, from a given smoothing flag *)
+let model_solve_trace ~l ~k ~pre ~post ~extrap_mode ~has_exact ~tol ~fmg ~fk ~iters ~maxit ~fgs0 ~(oracle : (bool * bool) list) =
+  let extrap = extrap_mode <> 0 and combined = extrap_mode = 3 in
+  let n = nat_of_int in
+  let init = init_ops fmg (ckind_of fk) (n iters) (n pre) (n post) extrap fgs0 (n l) in
+  let ((evs, itf), fgsf) = solve_loop (ckind_of k) (n l) (n pre) (n post) extrap combined has_exact tol fgs0 (n 0) (n maxit) oracle in
+  (init @ evs, int_of_nat itf, fgsf)
+let fgs_of_mode m = (m = 0 || m = 2 || m = 3)
+let parse_oracle toks = List.map (fun s -> match String.split_on_char ',' s with
+  | [c; sl] -> (c = "1", sl = "1") | _ -> failwith "bad oracle") toks
+
+let cycle_query (toks : string list) (rhs : string) : string =
+  match toks with
+  | "TR" :: l :: k :: pre :: post :: ex :: exact :: tol :: fmg :: fk :: iters :: maxit :: "|" :: orc ->
+    let (evs, _, _) = model_solve_trace ~l:(ios l) ~k:(ios k) ~pre:(ios pre) ~post:(ios post) ~extrap_mode:(ios ex)
+        ~has_exact:(exact = "1") ~tol:(tol = "1") ~fmg:(fmg = "1") ~fk:(ios fk) ~iters:(ios iters) ~maxit:(ios maxit)
+        ~fgs0:(fgs_of_mode (ios ex)) ~oracle:(parse_oracle orc) in
+    render_trace evs
+  | "HIST" :: l :: k :: pre :: post :: ex :: exact :: tol :: fmg :: fk :: iters :: maxit :: "|" :: orc ->
+    (* the last solve of a history must be the solve of a FRESH object: model started from the fresh state *)
+    let (evs, _, _) = model_solve_trace ~l:(ios l) ~k:(ios k) ~pre:(ios pre) ~post:(ios post) ~extrap_mode:(ios ex)
+        ~has_exact:(exact = "1") ~tol:(tol = "1") ~fmg:(fmg = "1") ~fk:(ios fk) ~iters:(ios iters) ~maxit:(ios maxit)
+        ~fgs0:(fgs_of_mode (ios ex)) ~oracle:(parse_oracle orc) in
+    render_trace evs
+  | "PROP" :: _ -> "ok"
+  | _ -> "?unknown-query"
+
 let () =
   let mode = if Array.length Sys.argv > 1 then Sys.argv.(1) else "" in
   let handler = match mode with
@@ -324,6 +368,7 @@ let () =
     | "interp" -> (fun t _ -> interp_query t)
     | "operator" -> operator_query
     | "smoother" -> smoother_query
+    | "cycle" -> cycle_query
     | _ -> prerr_endline ("unknown mode " ^ mode); exit 2 in
   try
     while true do
